@@ -20,8 +20,9 @@ non-zero code was executed and the guard's message was printed.  The plain one-p
 Space  = every combination of <= d feature switches (d=1 quick, d=2 thorough)
          x transformation variants (VARIANTS below)
          x dic2p: every subset of one or two of {n, m, kf} x every value of the input pool of each chosen argument (18),
-         graded: base tree: all variants x all 18 (both tiers); single-switch trees: quick 3 variants x 6 dic2p (each
-         subset once), thorough all variants x all 18; two-switch trees (thorough): {param, param-rbv} x 6 dic2p.
+         graded: base tree: all variants x all 18 (both tiers); single-switch trees: 6 dic2p (each subset once) x 3
+         variants (quick) / all 6 variants (thorough); two-switch trees (thorough): param x {n,kf}, param x {m},
+         param-rbv x {n,m}.
 Oracle = (1) the transformed sources build with gfortran -O0 -fcheck=bounds together with the unchanged PROGRAM;
          (2) for every input in which the parametrised arguments have the fixed values: exit status 0 and exactly the
              output of the original program;
@@ -125,10 +126,9 @@ VARIANTS = [
     ('param-entry-rbv', dict(replace_by_value=True, abort=None, entry='lev1')),
 ]
 # The product is graded (stated in the evidence): the base tree gets every variant x all 18 dic2p in both tiers;
-# single-switch trees: quick = D1_QUICK_VARIANTS x the 6 dic2p of small_dic2ps(), thorough = every variant x all 18;
-# two-switch trees (thorough only): D2_VARIANTS x small_dic2ps().
+# single-switch trees: the 6 dic2p of small_dic2ps() x D1_QUICK_VARIANTS (quick) / every variant (thorough);
+# two-switch trees (thorough only): the three (variant, dic2p) combinations of D2_PLAN.
 D1_QUICK_VARIANTS = ('param', 'param-rbv', 'param-entry')
-D2_VARIANTS = ('param', 'param-rbv')
 
 SCHED_CONFIG = {
     'default': {'mode': 'idem', 'role': 'kernel', 'expand': True, 'strict': True},
@@ -507,14 +507,17 @@ def small_dic2ps():
     return out
 
 
+D2_PLAN = [('param', dict(n=2, kf=-1)), ('param', dict(m=4)), ('param-rbv', dict(n=3, m=3))]
+
+
 def plan(nsw, d):
-    """(variants, dic2p list) for a program with nsw switches in the tier with bound d"""
+    """[(variant, dic2p)] for a program with nsw switches in the tier with bound d"""
     allv = [v for v, _ in VARIANTS]
     if nsw == 0:
-        return allv, dic2ps()
+        return [(v, f) for v in allv for f in dic2ps()]
     if nsw == 1:
-        return (list(D1_QUICK_VARIANTS), small_dic2ps()) if d == 1 else (allv, dic2ps())
-    return list(D2_VARIANTS), small_dic2ps()
+        return [(v, f) for v in (D1_QUICK_VARIANTS if d == 1 else allv) for f in small_dic2ps()]
+    return list(D2_PLAN)
 
 
 def make_cases(d, variants=None):
@@ -526,16 +529,16 @@ def make_cases(d, variants=None):
             continue
         sources, driver = program(sw)
         nm = names_of(sw)
-        vnames, dlist = plan(len(sw), d)
-        for vname, vopts in VARIANTS:
-            if vname not in vnames or (variants is not None and vname not in variants):
+        vopts_of = dict(VARIANTS)
+        for vname, fixed in plan(len(sw), d):
+            if variants is not None and vname not in variants:
                 continue
+            vopts = vopts_of[vname]
             entry = vopts['entry'] or 'kern'
-            for fixed in dlist:
-                dic2p = {nm[entry][k].lower(): v for k, v in fixed.items()}
-                cases.append(dict(id=case_id(sw, vname, fixed), sources=sources, driver=driver, xform=vname,
-                                  opts=dict(vopts, dic2p=dic2p), switches=sw, fixed=fixed, inputs=INPUTS,
-                                  seeds=['kern'] + (['kern2'] if 'two_drivers' in sw else [])))
+            dic2p = {nm[entry][k].lower(): v for k, v in fixed.items()}
+            cases.append(dict(id=case_id(sw, vname, fixed), sources=sources, driver=driver, xform=vname,
+                              opts=dict(vopts, dic2p=dic2p), switches=sw, fixed=fixed, inputs=INPUTS,
+                              seeds=['kern'] + (['kern2'] if 'two_drivers' in sw else [])))
     return cases
 
 
@@ -602,7 +605,7 @@ def run_jobs(b, jobs, intercept):
         res = []
         for k, inp in jobs:
             rc, out, err = b.run(['./a.out'], timeout=60, stdin=' '.join(str(v) for v in [k] + list(inp)) + '\n')
-            res.append(dict(rc=rc, out=out, err=err[-400:]))
+            res.append(dict(rc=rc, out=out, err=err[:600] + err[600:][-300:]))
         return res
     res = []
     todo = list(jobs)
@@ -724,7 +727,11 @@ def run_group(cases, base=None, intercept=True):
     versions = []
     for n, case in enumerate(cases):
         try:
-            ret = apply(case, None)
+            try:
+                ret = apply(case, None)
+            except Exception:  # pylint: disable=broad-except
+                # a defect of the transformation fails again; a transient failure of the (heavily shared) machine does not
+                ret = apply(case, None)
         except Exception as ex:  # pylint: disable=broad-except
             tb = traceback.format_exc().strip().splitlines()
             where = next((ln.strip() for ln in reversed(tb) if ln.strip().startswith('File "') and '/loki/' in ln
@@ -777,28 +784,29 @@ def exc_class(detail):
     return detail.split(':', 1)[0]
 
 
-def sigfn(results_by_id):
+def sigfn(cases, results):
     """A failing smaller case explains a case that contains it (same verdict, for exceptions the same exception class):
     smaller = fewer switches (none, then each single switch), fewer parametrised arguments (each single one, then the
-    pair; same values) and a simpler variant (defaults explain every option variant, replace_by_value explains the
+    pair; any value) and a simpler variant (defaults explain every option variant, replace_by_value explains the
     variants that add something to it).  `args=any` when every single argument fails the same way."""
-    def same(single, r):
-        return single is not None and single['verdict'] == r['verdict'] and \
-            (r['verdict'] != 'loki-exception' or exc_class(single['detail']) == exc_class(r['detail']))
+    def kind(r):
+        return (r['verdict'], exc_class(r['detail']) if r['verdict'] == 'loki-exception' else '')
 
-    def fails_alone(sw, vname, sub, r):
-        return same(results_by_id.get(case_id([sw] if sw else [], vname, sub)), r)
+    seen = {}
+    for c, r in zip(cases, results):
+        if len(c['switches']) <= 1:
+            seen.setdefault((c['switches'][0] if c['switches'] else None, c['xform'], tuple(c['fixed'])), set()).add(kind(r))
 
     def sig(case, r):
         vname, fixed = case['xform'], case['fixed']
-        subs = [{k: v} for k, v in fixed.items()] + ([dict(fixed)] if len(fixed) > 1 else [])
+        subs = [(a,) for a in fixed] + ([tuple(fixed)] if len(fixed) > 1 else [])
         for sw in [None] + list(case['switches']):
             for vn in EXPLAINED_BY.get(vname, ()) + (vname,):
                 for sub in subs:
-                    if not fails_alone(sw, vn, sub, r):
+                    if kind(r) not in seen.get((sw, vn, sub), ()):
                         continue
                     args = '+'.join(sub)
-                    if len(sub) == 1 and all(fails_alone(sw, vn, {a: POOL[a][0]}, r) for a in ARGS):
+                    if len(sub) == 1 and all(kind(r) in seen.get((sw, vn, (a,)), ()) for a in ARGS):
                         args = 'any'
                     what = f' {exc_class(r["detail"])}' if r['verdict'] == 'loki-exception' else ''
                     return f'{r["verdict"]}{what} block={sw or "base"} xform={vn} args={args}'
@@ -807,11 +815,17 @@ def sigfn(results_by_id):
 
 
 def conformance(group):
-    """the base-tree group judged with the shim and with one process per input: verdicts must agree"""
-    a = run_group(group, base=worker.base, intercept=True)
-    b = run_group(group, base=worker.base, intercept=False)
-    return [(x['id'], x['verdict'], y['verdict'], x.get('matched'), y.get('matched'), x.get('tripped'), y.get('tripped'))
-            for x, y in zip(a, b)]
+    """the base-tree group judged with the shim and with one process per input: verdicts must agree (a disagreement is
+    re-examined once: on the heavily shared machine a plain process occasionally dies of a time-out)"""
+    rows = []
+    for attempt in (1, 2):
+        a = run_group(group, base=worker.base, intercept=True)
+        b = run_group(group, base=worker.base, intercept=False)
+        rows = [(x['id'], x['verdict'], y['verdict'], x.get('matched'), y.get('matched'), x.get('tripped'), y.get('tripped'))
+                for x, y in zip(a, b)]
+        if all(r[1] == r[2] and r[3] == r[4] and r[5] == r[6] for r in rows):
+            break
+    return rows
 
 
 def run(ctx):
@@ -826,11 +840,15 @@ def run(ctx):
     glist = seeded_order(list(groups.values()), ctx.seed)
     by_id = {r['id']: r for res in ctx.pmap(worker, glist, chunksize=1) for r in res}
     results = [by_id[c['id']] for c in cases]
+    if os.environ.get('VERIF_DUMP'):
+        with open(os.environ['VERIF_DUMP'], 'w') as fh:
+            json.dump([dict(id=c['id'], switches=c['switches'], xform=c['xform'], fixed=c['fixed'], result=r)
+                       for c, r in zip(cases, results)], fh)
     # shim vs plain processes on the base tree (every variant, all 18 dic2p)
     conf = [row for res in ctx.pmap(conformance, [g for g in glist if not g[0]['switches']], chunksize=1) for row in res]
     bad = [row for row in conf if row[1] != row[2] or row[3] != row[4] or row[5] != row[6]]
     ctx.require(not bad, f'STOP shim and one-process-per-input mode disagree: {bad[:3]}')
-    xform.summarise(ctx, cases, results, sigfn(by_id), min_changed=50)
+    xform.summarise(ctx, cases, results, sigfn(cases, results), min_changed=50)
     per_variant = {}
     for c, r in zip(cases, results):
         pv = per_variant.setdefault(c['xform'], dict(cases=0, ok=0, matched_runs=0, tripped_runs=0))
@@ -847,8 +865,8 @@ def run(ctx):
         bound=dict(max_switches=d, switches=len(SWITCHES), variants=[v for v, _ in VARIANTS], dic2p_full=len(dic2ps()),
                    dic2p_small=len(small_dic2ps()), pool=POOL, inputs=len(INPUTS),
                    grading={'0 switches': 'all variants x 18 dic2p',
-                            '1 switch': f'{list(D1_QUICK_VARIANTS)} x 6 dic2p' if d == 1 else 'all variants x 18 dic2p',
-                            '2 switches': f'{list(D2_VARIANTS)} x 6 dic2p' if d >= 2 else 'not in this tier'}),
+                            '1 switch': f'{list(D1_QUICK_VARIANTS)} x 6 dic2p' if d == 1 else 'all variants x 6 dic2p',
+                            '2 switches': f'{[(v, sorted(f)) for v, f in D2_PLAN]}' if d >= 2 else 'not in this tier'}),
         rule=f'all combinations of <= {d} of {len(SWITCHES)} feature switches x variants x dic2p, graded as in bound.grading '
              f'(18 = every subset of 1-2 of n, m, kf x every pool value; 6 = every subset once); every case is run on all '
              f'{len(INPUTS)} inputs; non-trivial = at least one input matched with identical output and at least one input '
